@@ -483,6 +483,29 @@ impl NodeState {
     }
 }
 
+#[cfg(feature = "verif")]
+impl NodeState {
+    pub(crate) fn verif_new(chitchat_id: ChitchatId) -> NodeState {
+        NodeState::new(chitchat_id, Listeners::default())
+    }
+
+    pub(crate) fn verif_check_delta_status(&self, node_delta: &NodeDelta) -> u8 {
+        self.check_delta_status(node_delta) as u8
+    }
+
+    pub(crate) fn verif_apply_delta(&mut self, node_delta: NodeDelta, now: Instant) -> u8 {
+        self.apply_delta(node_delta, now) as u8
+    }
+
+    pub(crate) fn verif_gc_keys_marked_for_deletion(&mut self, grace_period: Duration) {
+        self.gc_keys_marked_for_deletion(grace_period)
+    }
+
+    pub(crate) fn verif_set_heartbeat(&mut self, heartbeat: Heartbeat) {
+        self.heartbeat = heartbeat;
+    }
+}
+
 /// Enum describing whether a given delta is applicable to a state.
 /// (the logic depends on the state max_version, gc_version, and the delta
 /// from_version_excluded, max_version, and gc_version)
@@ -817,6 +840,8 @@ impl<'a> SortedStaleNodes<'a> {
             .rev()
             .flat_map(move |mut stale_nodes| {
                 stale_nodes.shuffle(&mut rng);
+                #[cfg(feature = "verif")]
+                crate::verif::log_shuffle(stale_nodes.iter().map(|stale_node| stale_node.chitchat_id));
                 stale_nodes.into_iter()
             })
     }
